@@ -564,6 +564,7 @@ class Node(object):
         individual_to_preempt.original_service_time = individual_to_preempt.service_time
         if self.priority_preempt == 'reroute':
             self.reroute(individual_to_preempt)
+            self.number_in_service += 1
         else:
             self.write_interruption_record(individual_to_preempt)
             individual_to_preempt.service_start_date = False
